@@ -333,6 +333,8 @@ class Rule(MethodMeek):
                 for c in C.elected():
                     #c.kf = V.muldiv(c.kf, E.quota, c.vote, round='up')  # OpenSTV variant
                     c.kf = V.div(V.mul(c.kf, E.quota, round='up'), c.vote, round='up')  # NZ variant
+                    if c.kf > V1:   # the rounded quota can rise a unit above an elected candidate's vote
+                        c.kf = V1   # a keep factor never exceeds 1
 
         #########################
         #
